@@ -183,6 +183,10 @@ func (e *Ev) callMethod(fn *types.Func, recv Term, recvT types.Type, n *ast.Call
 		return e.callExternal(fn, &recv, n)
 	}
 	// adjust receiver: pointer receiver called on addressable value / value receiver on pointer
+	if recv.T == nil {
+		// the receiver expression could not be evaluated (an error has been recorded for it)
+		return e.errorf(n, "receiver of %s has no type", fn.Name())
+	}
 	_, wantPtr := sig.Recv().Type().Underlying().(*types.Pointer)
 	_, havePtr := recv.T.Underlying().(*types.Pointer)
 	if wantPtr && !havePtr {
